@@ -275,6 +275,29 @@ def run(ctx, load):
     check_seq_layout(P, ctx, rule='C19.pointer-arithmetic')
     ctx.floors.pop(('C19.pointer-arithmetic', ctx.config), None)
     ctx.floor('C19.pointer-arithmetic', 13)
+    # the objects handed out by Tree and Table sit at offsets computed from the record layout: allocation size, key / value / header
+    # offsets and the extents of the record moves must agree (shared with C03.layout / C02.layout)
+    from .rules_c03 import check_layout as tree_layout
+    from .rules_c02 import check_layout as table_layout
+    before = len(ctx.obs)
+    tree_layout(P, ctx)
+    table_layout(P, ctx)
+    for o in ctx.obs[before:]:
+        o['rule'] = 'C19.embedded-object-layout'
+    for k in list(ctx.floors):
+        if k[0].startswith(('C03.', 'C02.')):
+            ctx.floors.pop(k)
+    ctx.floor('C19.embedded-object-layout', 20)
+    # a Box releases its pointee through del only (shared with C06.box): never a raw release of something it may not own
+    from .rules_c06 import check_box
+    before = len(ctx.obs)
+    check_box(P, ctx)
+    for o in ctx.obs[before:]:
+        o['rule'] = 'C19.box-releases-through-del'
+    for k in list(ctx.floors):
+        if k[0].startswith('C06.'):
+            ctx.floors.pop(k)
+    ctx.floor('C19.box-releases-through-del', 2)
     check_typed_results(P, ctx)
     # guards: String and Tuple buffers, dealloc
     Ppos = load(['src/Exception.c'], 'default', ['/verif/witness/positive/c19_dealloc.c'])
